@@ -111,6 +111,7 @@ struct Gen {
 		if (for_set && u < 0.15 && !no_insert) { e.t = 3; }
 		else if (for_set && u < 0.3 && !no_insert) { e.t = 2; e.n = rng.chance(0.8) ? rng.range(0, n) : n + rng.range(1, 3); }
 		else if (!for_set && allow_bad && u < 0.04) { e.t = rng.chance(0.5) ? 2 : 3; e.n = rng.range(0, n); }
+		else if (!for_set && u < 0.05) { e.t = 1; e.n = (rng.chance(0.5) ? 4294967296L : 8589934592L) + rng.range(0, n + 1); }	// far beyond any list (and beyond the range of int)
 		else {
 		    e.t = 1;
 		    double w = rng.uni();
